@@ -86,7 +86,7 @@ func init() {
 
 func genC19(r *kit.RNG) *C19Scenario {
 	sc := &C19Scenario{Seed: r.Uint64(), Enabled: r.Chance(0.85), V4Max: kit.Pick(r, []int{0, 8, 16, 24, 24, 32, 40}), V6Max: kit.Pick(r, []int{0, 32, 48, 56, 64, 128, 200}),
-		LimitS: kit.Pick(r, []int{0, 5, 30}), MinV4: kit.Pick(r, []int{0, 0, 8, 16, 24}), MinV6: kit.Pick(r, []int{0, 0, 32, 48}),
+		LimitS: kit.Pick(r, []int{0, 5, 30}), MinV4: kit.Pick(r, []int{0, 0, 8, 16, 24, 0, 0, 8, 16, 24, 40 /* out of range: the whole block is invalid */}), MinV6: kit.Pick(r, []int{0, 0, 32, 48, 0, 0, 32, 48, 0, 32, 48, 200 /* out of range */}),
 		ScopeMode: kit.Pick(r, []string{"zero", "same", "same", "narrower", "wider", "fixed"}), ScopeBits: kit.Pick(r, []int{0, 8, 16, 20, 24, 28, 32}),
 		TTL: kit.Pick(r, []int{5, 20, 60, 300}), Prefetch: uint32(kit.Pick(r, []int{0, 0, 50, 90})), Signed: r.Chance(0.3)}
 	switch r.Intn(5) {
